@@ -44,6 +44,7 @@ impl Service<NullConfig> for Producer {
 
 pub fn exec(c: &[i64]) -> Vec<i64> {
     if c[0] == 300 { return crate::session::exec(&c[1..]); }
+    if c[0] == 1000 { return crate::authrig::exec(&c[1..]); }
     let nn = c[0] as usize;
     let sh = Shared { gates: (0..nn).map(|_| Arc::new(Semaphore::new(0))).collect(), logs: (0..nn).map(|_| Arc::new(Mutex::new(vec![]))).collect(), tx: Arc::new(Mutex::new(None)) };
     SHARED.with(|s| *s.borrow_mut() = Some(sh.clone()));
@@ -105,6 +106,17 @@ pub fn gen(o: &Opts, sink: &mut dyn FnMut(Vec<i64>, String)) {
         for j in 0..burst { let v = (100 + j as u16).to_be_bytes(); frames.push(if j % 3 == 0 { (0x20, vec![5, v[0], v[1]]) } else if j % 3 == 1 { (0x45, vec![0x1e, (j % 2) as u8]) } else { (0x43, vec![0, 0, v[0], v[1], 0x10]) }); }
         frames.push((0x20, vec![0]));
         let mut c = vec![300]; c.extend(crate::sessgen::script_case(false, &frames, None, &[], &[], 0));
+        put!(c);
+    }
+    // the last hop: accepted commands leave through the real NetworkAuthority; a bus that stalls for 60 ms
+    // while a command (in particular the final stop-all) is being written loses nothing
+    for j in 0..(if o.tier_thorough { 120u64 } else { 16 }) {
+        let mut rng = Rng::new(o.seed, 15_500 + j);
+        let mut c = vec![1000]; c.extend(crate::c10::config(&[(1, 0x4a, None, 0)]));
+        c.push(5); c.push(2);
+        for q in 0..(2 + rng.below(4)) { c.push(if rng.chance(1, 2) { 9 } else { 3 }); c.extend([5, 100 + q as i64]); }
+        c.push(9); c.push(0);           // the closing stop-all arrives during a stall
+        c.push(2);
         put!(c);
     }
     // random schedules: any relative speed of producers and handlers
